@@ -133,7 +133,7 @@ PROPS = {
     # after a disconnect everything held for the connection must be gone: on these families the cache-release rules count as C11 too
     "C11": dict(run=gateway_run(["cache", "access", "win-evict", "thr-reset1"], ["close", "sockClosed"], also=("C09",))),
     "C04": dict(run=gateway_run(["access", "cache", "win-recheck", "win-indirect"], ["mres", "cres"])),
-    "C05": dict(run=tables.combine(gateway_run(["access", "win-recheck"], ["mreq"]), tables.tables_run(["calllist", "access"], "CanCall / access verdict"))),
+    "C05": dict(run=tables.combine(gateway_run(["access", "win-recheck"], ["mreq"]), tables.tables_run(["calllist", "access", "callsubject"], "CanCall / access verdict / call subject"))),
     "C12": dict(run=tables.combine(tables.tables_run(["pattern", "coldiff", "modeldiff"], "reset matching / diff"),
                                    gateway_run(["stream", "win-load", "win-alias"], ["mreq", "cev"], also=("C01",)))),
     "C06": dict(run=gateway_run(["access", "stream", "win-recheck", "win-load"], ["note", "cev"])),
@@ -332,8 +332,8 @@ def subaccess_model(ctx):
 
 # (thr-reset1: token resets and token changes with a reset throttle configured - every auth request carries the connection's token)
 PROPS["C05"] = dict(run=tables.combine(subaccess_model, gateway_run(["access", "win-recheck", "win-indirect", "thr-reset1"], ["mreq", "note"]),
-                                       tables.tables_run(["calllist", "access"], "CanCall / access verdict")))
-TEXT["C05"] = _t("spec/SubAccess.tla (the subscription's access cache: one request in flight, waiting callers, cached answer, reaccess in epochs) is model-checked exhaustively: the cached answer was requested in the current epoch, no request is decided on an answer requested before the last reaccess that preceded it, every request is decided; the same module with Repaired = FALSE reproduces the repaired defect. Every access-cache note of the replayed gateway schedules is replayed through the same transitions (spec/SubAccessTrace.tla). The observer's access ledger requires for every forwarded call (attributed to client requests in FIFO order) a valid answer allowing the method ('*' or an exact entry), not invalidated by a processed trigger and not requested before a token change that it was handed over after; every access / call / auth request carries the connection's processed token. CanCall is checked exhaustively as a table against spec/fn/CallList.tla.",
+                                       tables.tables_run(["calllist", "access", "callsubject"], "CanCall / access verdict / call subject")))
+TEXT["C05"] = _t("spec/SubAccess.tla (the subscription's access cache: one request in flight, waiting callers, cached answer, reaccess in epochs) is model-checked exhaustively: the cached answer was requested in the current epoch, no request is decided on an answer requested before the last reaccess that preceded it, every request is decided; the same module with Repaired = FALSE reproduces the repaired defect. Every access-cache note of the replayed gateway schedules is replayed through the same transitions (spec/SubAccessTrace.tla). The observer's access ledger requires for every forwarded call (attributed to client requests in FIFO order) a valid answer allowing the method ('*' or an exact entry), not invalidated by a processed trigger and not requested before a token change that it was handed over after; every access / call / auth request carries the connection's processed token. CanCall is checked exhaustively as a table against spec/fn/CallList.tla. Table callsubject (spec/fn/CallSubjectCheck.tla on the rows of the subjects table: WebSocket call / new, HTTP POST and mapped PUT / DELETE / PATCH paths with percent-encoded characters and URL queries): every call request names the resource the access request of the same client request named, and its method is one subject token.",
                  "TLC exhaustive on SubAccess.tla + per-note conformance (SubAccessTrace.tla) + access ledger on gateway traces + exhaustive CanCall table")
 
 
